@@ -318,7 +318,10 @@ pub fn render_file(r: &mut StdRng, includes: &[(usize, String)], depth_hint: usi
     let nitems = if depth_hint > 0 { r.gen_range(600..1300) } else if first { r.gen_range(3..25) } else { r.gen_range(1..8) };
     let mut pending_includes: Vec<(usize, String)> = includes.to_vec();
     // deliberately broken file: the first record omits something that cannot be inherited
-    let broken = first && includes.is_empty() && r.gen_bool(0.04);
+    let broken = (first && includes.is_empty() && r.gen_bool(0.04)) || (!first && r.gen_bool(0.06));
+    // a relative owner or '@' although no origin is in force: the parse must fail there (an included file inherits an
+    // origin only from the directive or its includer, and an includer without origin must not keep the include's)
+    let mut rel_without_origin = r.gen_bool(0.06);
     for _ in 0..nitems {
         let k = r.gen_range(0..100);
         if k < 10 {
@@ -378,7 +381,16 @@ pub fn render_file(r: &mut StdRng, includes: &[(usize, String)], depth_hint: usi
             }
             let mut line: Vec<u8> = Vec::new();
             let oform;
-            if (has_prev || (broken && r.gen_bool(0.3))) && r.gen_bool(0.3) {
+            if rel_without_origin && origin.is_none() && first && r.gen_bool(0.3) {
+                rel_without_origin = false;
+                if r.gen_bool(0.5) {
+                    line.extend_from_slice(b"@");
+                    oform = json!({"form": "at", "labels": [], "name": [0]});
+                } else {
+                    line.extend_from_slice(b"relname");
+                    oform = json!({"form": "rel", "labels": [b"relname".to_vec()], "name": [0]});
+                }
+            } else if (has_prev || (broken && r.gen_bool(0.3))) && r.gen_bool(0.3) {
                 line.extend(sep(r));
                 oform = json!({"form": "blank", "labels": [], "name": [0]});
             } else {
@@ -389,7 +401,9 @@ pub fn render_file(r: &mut StdRng, includes: &[(usize, String)], depth_hint: usi
             let ttl_v: u32 = *[0u32, 5, 3600, 604800, 2147483647].choose(r).unwrap();
             let class_v: u16 = *[1u16, 1, 1, 3, 4, 65280].choose(r).unwrap();
             let ttl_p = (!has_ttl_src && !broken) || r.gen_bool(0.5);
-            let class_p = (!has_class && !broken) || r.gen_bool(0.5);
+            // in an included file the class in force is the includer's and unknown here: never omit the class there
+            // before this file has named one (the RDATA presentation depends on it); TTL and owner may be inherited
+            let class_p = (!has_class && (!broken || !first)) || r.gen_bool(0.5);
             let class_txt = match class_v {
                 1 => rcase(r, "IN"),
                 3 => rcase(r, "CH"),
